@@ -55,6 +55,37 @@ func SigmaSmall() []Step {
 	}
 }
 
+// SigmaFuncFilters are filters whose operands contain user functions (C12, C14).
+func SigmaFuncFilters() []Step {
+	a := Name("a")
+	return []Step{
+		Filter(Cmp("==", OpP(at(a).F("f")), LitNum(2))),
+		Filter(Cmp("==", OpP(at().F("f")), LitNum(2))),
+		Filter(Cmp("==", OpP(at(Wild()).F("cnt")), LitNum(1))),
+		Filter(Cmp("==", OpP(at(Multi("a", "b")).F("cnt")), LitNum(2))),
+		Filter(Cmp("==", OpP(rt(a).F("f")), LitNum(2))),
+		Filter(Cmp("==", OpP(rt(Multi("a", "b")).F("cnt")), LitNum(1))),
+		Filter(Exists(at(a).F("id"))),
+		Filter(Exists(at(Wild()).F("g"))),
+		Filter(Cmp("==", OpP(at(Multi("a", "b")).F("first")), LitNum(1))),
+		Filter(Exists(at(a).F("e"))),
+		Filter(Cmp("==", OpP(at(Wild()).F("eg")), LitNum(1))),
+		Filter(Cmp(">", OpP(at(Wild()).F("g", "cnt")), LitNum(1))),
+		Filter(Cmp("==", OpP(at(Union(Idx(0))).F("f", "f")), LitNum(4))),
+	}
+}
+
+// SigmaBoundary are subscripts with integer-boundary magnitudes (C03).
+func SigmaBoundary() []Step {
+	const maxI, minI = int64(^uint64(0) >> 1), -int64(^uint64(0)>>1) - 1
+	return []Step{
+		Union(Slice(N(1), Om(), N(maxI))), Union(Slice(Om(), Om(), N(minI))), Union(Slice(N(minI), N(maxI), N(1))),
+		Union(Slice(N(maxI), N(minI), N(-1))), Union(Idx(maxI)), Union(Idx(minI)), Union(Idx(1 << 31)), Union(Idx(-(1 << 31))),
+		Union(Slice(N(0), N(maxI), N(maxI-1))), Union(Slice(N(-1), Om(), N(maxI))), Union(Idx(0), Slice(N(1), Om(), N(maxI))),
+		Rec(Union(Slice(N(1), Om(), N(maxI)))), Union(Slice(Om(), Om(), N(0))),
+	}
+}
+
 // FuncSuffixes are the single trailing-function suffixes.
 func FuncSuffixes() [][]string {
 	return [][]string{{"f"}, {"id"}, {"g"}, {"cnt"}, {"first"}, {"e"}, {"eg"}}
@@ -69,6 +100,7 @@ type Ladder struct {
 	FuncDepth int
 	MinPrefix int // only trie nodes with at least this many steps become units
 	Modes     []int // decodings to explore for this ladder (nil = all)
+	Keep      func(p *Path) bool // optional filter on the enumerated paths
 }
 
 // Unit is a prefix (trie node) of a ladder; it stands for the paths prefix·x (x in Alpha)
@@ -82,13 +114,17 @@ type Unit struct {
 func (l *Ladder) Units() []Unit {
 	var out []Unit
 	level := [][]Step{{}}
-	for d := 0; d < l.Depth; d++ {
+	maxLevel := l.Depth - 1
+	if len(l.Funcs) > 0 && l.FuncDepth > maxLevel {
+		maxLevel = l.FuncDepth
+	}
+	for d := 0; d <= maxLevel; d++ {
 		var next [][]Step
 		for _, p := range level {
 			if d >= l.MinPrefix {
 				out = append(out, Unit{L: l, Prefix: p})
 			}
-			if d+1 < l.Depth {
+			if d+1 <= maxLevel {
 				for _, s := range l.Alpha {
 					np := append(append([]Step{}, p...), s)
 					next = append(next, np)
@@ -112,9 +148,20 @@ func (u Unit) Paths() []*Path {
 			out = append(out, &Path{Root: '$', Steps: u.Prefix, Funcs: fs})
 		}
 	}
-	for _, s := range u.L.Alpha {
-		steps := append(append([]Step{}, u.Prefix...), s)
-		out = append(out, &Path{Root: '$', Steps: steps})
+	if len(u.Prefix) < u.L.Depth {
+		for _, s := range u.L.Alpha {
+			steps := append(append([]Step{}, u.Prefix...), s)
+			out = append(out, &Path{Root: '$', Steps: steps})
+		}
+	}
+	if u.L.Keep != nil {
+		kept := out[:0]
+		for _, p := range out {
+			if u.L.Keep(p) {
+				kept = append(kept, p)
+			}
+		}
+		out = kept
 	}
 	return out
 }
